@@ -40,7 +40,7 @@ func DefaultConfig() *Config {
 			"os",
 			"net",
 		},
-		BenignGlobals: map[string]bool{"errors.errorType": true},
+		BenignGlobals: map[string]bool{"errors.errorType": true, "google.golang.org/protobuf/runtime/protoimpl.X": true},
 		ZeroFuncs: map[string]bool{
 			"github.com/buildbarn/bb-storage/pkg/util.DecimalExponentialBuckets": true,
 		},
